@@ -30,8 +30,13 @@ Hist == LET base == IF E.o = "recv" /\ E.m.t = "def" THEN ResetVec(last, E.m.dev
 MirrorOK(Q) == /\ CanonV(Q.vecs) = CanonV(E.obs.vecs)
                /\ Range(Q.devs) = Range(E.obs.devs)
                /\ (E.o # "recvbad" => ~E.obs.raised /\ E.obs.alive)      \* surviving ill-formed BLOBs is not part of the statement
-EventsOK(Q) == /\ Q.evs = CanonE(E.obs.evs)
-               /\ Q.calls = CanonC(E.obs.calls)
+\* the order in which the events of ONE message are raised (values before state, elements in which order) is not part of C16:
+\* the model's events and calls are compared as bags; the order-sensitive statements are the chain and ExpectedCalls below,
+\* evaluated on the observed order
+BagOf(q, x) == Cardinality({i \in DOMAIN q : q[i] = x})
+SameBag(a, b) == Len(a) = Len(b) /\ (\A i \in DOMAIN a : BagOf(a, a[i]) = BagOf(b, a[i]))
+EventsOK(Q) == /\ SameBag(Q.evs, CanonE(E.obs.evs))
+               /\ SameBag(Q.calls, CanonC(E.obs.calls))
                /\ Len(Q.tasks) = E.obs.ntasks
                \* the statements of C16 on the observed events themselves
                /\ Hist[1]
